@@ -31,7 +31,7 @@ import time
 import traceback
 
 ROOT = os.path.dirname(os.path.dirname(os.path.abspath(__file__)))
-MAX_FAIL_DETAIL = 40
+MAX_FAIL_DETAIL = 12
 MAX_SAMPLES = 6
 
 
@@ -81,6 +81,8 @@ class Ctx:
         self.sigs = set()
         self.samples = []
         self.failures = []
+        self.buckets = {}
+        self.classifier = None
         self.nfail = 0
         self.cases = 0
         self.notes = {}
@@ -169,12 +171,23 @@ class Ctx:
         return ok
 
     def _fail(self, monitor, witness):
+        """Record a failure.  It is classified at once (known-finding mechanism key or None) so that the
+        detail cap is per (monitor, key) bucket: many hits of a known finding can never crowd out a different
+        violation of the same monitor."""
         self.monitor_fail[monitor] += 1
         self.nfail += 1
         f = {'monitor': monitor, 'case': dict(self.case or {}), 'features': jsonable(self.features),
              'witness': jsonable(witness)}
-        if len(self.failures) < MAX_FAIL_DETAIL or \
-                not any(x['monitor'] == monitor for x in self.failures):
+        key = None
+        if self.classifier is not None:
+            try:
+                key = self.classifier(f)
+            except Exception as e:
+                f['classify_error'] = repr(e)
+        f['key'] = key
+        b = '%s|%s' % (monitor, key)
+        self.buckets[b] = self.buckets.get(b, 0) + 1
+        if self.buckets[b] <= MAX_FAIL_DETAIL:
             self.failures.append(f)
 
     def fail_exception(self, exc, monitor='no-unlicensed-exception'):
@@ -189,6 +202,7 @@ class Ctx:
             'classes': dict(self.classes), 'events': dict(self.events), 'licensed': dict(self.licensed),
             'residual': self.residual, 'relerr': self.relerr, 'sigs': sorted(self.sigs),
             'samples': self.samples, 'failures': self.failures, 'nfail': self.nfail, 'notes': self.notes,
+            'buckets': self.buckets,
         }
 
 
@@ -214,6 +228,7 @@ def run_shard(args):
     warnings.filterwarnings('ignore')
     ctx = Ctx(args.prop, args.tier, args.seed, args.shard, args.nshards, args.pass_name)
     ctx.scratch = tempfile.mkdtemp(prefix='vmon-')
+    ctx.classifier = getattr(mod, 'classify', None)
     cases = json.loads(args.cases)
     t0 = time.time()
     try:
@@ -240,12 +255,6 @@ def run_shard(args):
         import shutil
         shutil.rmtree(ctx.scratch, ignore_errors=True)
     out = ctx.dump()
-    for f in out['failures']:
-        try:
-            f['key'] = mod.classify(f) if hasattr(mod, 'classify') else None
-        except Exception as e:
-            f['key'] = None
-            f['classify_error'] = repr(e)
     out['wall_s'] = time.time() - t0
     with open(args.out, 'w') as fh:
         json.dump(out, fh)
@@ -257,7 +266,7 @@ def merge(parts):
     from collections import Counter
     m = {'cases': 0, 'monitors': Counter(), 'monitor_fail': Counter(), 'classes': Counter(),
          'events': Counter(), 'licensed': Counter(), 'residual': {}, 'relerr': {}, 'sigs': set(),
-         'samples': [], 'failures': [], 'nfail': 0, 'notes': {}, 'passes': {}}
+         'samples': [], 'failures': [], 'nfail': 0, 'notes': {}, 'passes': {}, 'buckets': Counter()}
     for p in parts:
         m['cases'] += p['cases']
         for k in ('monitors', 'monitor_fail', 'classes', 'events', 'licensed'):
@@ -271,6 +280,7 @@ def merge(parts):
                 m['samples'].append(s)
         m['failures'].extend(p['failures'])
         m['nfail'] += p['nfail']
+        m['buckets'].update(p.get('buckets', {}))
         m['notes'].update(p['notes'])
     return m
 
@@ -373,7 +383,7 @@ def run_parent(args):
         d['shards'] += 1
         d['wall_s'] = max(d['wall_s'], p['wall_s'])
 
-    # classify failures
+    # classify failures: every (monitor, key) bucket whose key is not an open known finding is a violation
     kf_hit, violations = {}, []
     for f in m['failures']:
         key = f.get('key')
@@ -381,9 +391,15 @@ def run_parent(args):
             kf_hit.setdefault(key, []).append(f)
         else:
             violations.append(f)
-    # failures beyond the detailed ones: count per monitor so nothing is lost
-    detailed = len(m['failures'])
-    undetailed = m['nfail'] - detailed
+    kf_count, viol_count = {}, 0
+    for b, cnt in m['buckets'].items():
+        key = b.split('|', 1)[1]
+        if key != 'None' and key in open_keys:
+            kf_count[key] = kf_count.get(key, 0) + cnt
+        else:
+            viol_count += cnt
+    undetailed = m['nfail'] - len(m['failures'])
+    m['kf_count'], m['viol_count'] = kf_count, viol_count
 
     inconclusive = list(problems)
     if only is None:
@@ -435,8 +451,8 @@ def run_parent(args):
                        undetailed)
 
     for key, fs in sorted(kf_hit.items()):
-        print('KNOWN-FINDING: property=%s %s -- %s (hit by %d recorded failures)' %
-              (prop, key, open_keys[key].get('what', ''), len(fs)))
+        print('KNOWN-FINDING: property=%s %s -- %s (hit %d times)' %
+              (prop, key, open_keys[key].get('what', ''), m['kf_count'].get(key, len(fs))))
     print('%s %s tier=%s seed=%d cases=%d distinct=%d monitors=%d evaluations=%d wall=%.1fs' %
           (prop, status.upper(), tier, seed, m['cases'], len(m['sigs']), len(m['monitors']),
            sum(m['monitors'].values()), wall))
@@ -477,7 +493,7 @@ def write_evidence(mod, prop, tier, seed, m, per_pass, kf_hit, violations, incon
         'max_fraction_of_tolerance_used': {k: float('%.3g' % v) for k, v in sorted(m['residual'].items())},
         'max_relative_error_observed': {k: float('%.3g' % v) for k, v in sorted(m['relerr'].items())},
         'passes': per_pass,
-        'known_findings_hit': {k: len(v) for k, v in kf_hit.items()},
+        'known_findings_hit': dict(m.get('kf_count', {})),
         'inconclusive_reasons': inconclusive,
         'notes': m['notes'],
         'sanitizer_env': {p['name']: p.get('env', {}) for p in mod.BUDGET[tier]},
@@ -486,7 +502,7 @@ def write_evidence(mod, prop, tier, seed, m, per_pass, kf_hit, violations, incon
     ev = {
         'property_id': prop, 'tier': tier, 'seed': int(seed), 'level': 'exploration',
         'coverage': cov, 'assumptions': list(getattr(mod, 'ASSUMPTIONS', [])),
-        'wall_s': round(wall, 2), 'violations': len(violations),
+        'wall_s': round(wall, 2), 'violations': int(m.get('viol_count', len(violations))),
     }
     evdir = os.path.join(ROOT, 'evidence')
     if os.path.realpath(os.environ.get('VMON_REPO', '/repo')) != '/repo':
